@@ -59,6 +59,7 @@ func r3pNewMoves(c *Ctx) *r3pMoves {
 	m := travGetModel(c)
 	tr := &travRun{c: c, m: m, tc: newTravCollector(m), hasUnit: map[string]bool{}}
 	tr.learnLoopContext()
+	r3pLearnLoopContext(tr) // the same bookkeeping written as a helper pair or a closure wrapper
 	units := tr.enumerate()
 	absorb := tr.absorbing(units)
 	loopPred := tr.loopControlFamilies(units, absorb)
